@@ -48,6 +48,11 @@ type renderResult struct {
 func (c *compiled) render(entry string, data map[string]ref.Value, ij map[string]ref.Value, hasIJ bool) (r renderResult) {
 	var buf bytes.Buffer
 	r.panicked = catch(func() {
+		if !hasIJ && len(entry)%2 == 0 && data != nil {
+			// the convenience entry point: plain Go values, converted by the renderer itself
+			r.err = c.tofu.Render(&buf, entry, toJSONMap(data))
+			return
+		}
 		rd := c.tofu.NewRenderer(entry)
 		if hasIJ {
 			rd.Inject(toDataMap(ij))
